@@ -540,6 +540,7 @@ def run(tier):
     from .. import lints as _l
     _l.limb_split_consistent(chk, ['src/ec/'])
     _l.word_codec_maps(chk, ['src/ec/'], floor=3)
+    _l.word_split_conserves_bits(chk, ['src/ec/'], floor=6)
     from .. import siblings as _sib
     _sib.check(chk, ['src/ec/'], floor=8)
     from .. import siblings as _sib
